@@ -441,6 +441,7 @@ def run(ctx):
     import rules.c10 as c10
     from check import Ctx, Record
     sub = Ctx("C10", ctx.tier, ctx.fx)
+    sub.no_share = True
     sub.inline_set = ctx.inline_set
     sub.desugar = bool(getattr(c10, "DESUGAR", False))
     try:
